@@ -110,7 +110,9 @@ def install():
 
 class TransportModel(object):
     def __init__(self, n=2, observers=0, faults=1, times=2, probes=2, restarts=0, drops=0, outsiders=0, closing_every=1,
-                 ro_leaves=0, cold=False, netdowns=0):
+                 ro_leaves=0, cold=False, netdowns=0, sndcap=4096, prefix=()):
+        self.prefix = prefix    # scripted events applied to the settled initial state ('settle' = default schedule to quiescence); free of budget
+        self.sndcap = sndcap    # socket send buffer (a small one makes ordinary messages need several writes)
         install()
         self.n = n
         self.no = observers
@@ -145,7 +147,7 @@ class TransportModel(object):
 
     def initial(self):
         w = W()
-        w.net = OwnedNet(sndcap=4096)
+        w.net = OwnedNet(sndcap=self.sndcap)
         w.now = 1000000.0
         seams.CLOCK[0] = w.now
         w.used = dict((k, 0) for k in self.b)
@@ -159,6 +161,12 @@ class TransportModel(object):
         if not self.cold:
             # seed state: every connection established by the default schedule (ticks, connects, handshakes)
             self.settle(w)
+        for ev in self.prefix:
+            if ev == 'settle' or ev == ('settle',):
+                self.settle(w)
+            else:
+                self.do(w, tuple(ev))
+        w.used = dict((k, 0) for k in self.b)
         return w
 
     # ---- canonical key
@@ -215,7 +223,9 @@ class TransportModel(object):
             if not s.err and (lst is None or (not closing and w.used['F'] < self.b['F'])):
                 evs.append(('conn_refuse', fd, lst is None))
         for fd, s in sorted(net.sockets.items()):
-            if s.out and (s.state == 'connected' or s.state == 'closed'):
+            if s.out and (s.state == 'connected' or s.state == 'closed') and not s.blackhole:
+                # on a silent link nothing is acknowledged: the bytes stay in the sender's buffer (TCP keeps
+                # retransmitting) and arrive intact if the silence ends, never with a hole in the stream
                 evs.append(('xfer', fd))
         for nd in w.nodes:
             if not nd.alive:
@@ -251,6 +261,10 @@ class TransportModel(object):
                     evs.append(('reset', fd))
                     if not s.blackhole:
                         evs.append(('silence', fd))
+            for fd, s in sorted(net.sockets.items()):
+                if s.state == 'connected' and s.peer is not None and not s.fail_next_send and not s.err and \
+                        isinstance(getattr(s, 'owner', None), int) and w.nodes[s.owner].alive:
+                    evs.append(('sendfail', fd))
         if w.used['R'] < self.b['R']:
             for nd in w.nodes:
                 if nd.alive and nd.idx < self.n:
@@ -336,6 +350,10 @@ class TransportModel(object):
                     x.err = errno.ECONNRESET
                     x.rcv = bytearray()
                     x.out = bytearray()
+            elif k == 'sendfail':
+                # the connection is reset at the very moment of the owner's next send(): poll has not reported anything
+                w.used['F'] += 1
+                net.sockets[ev[1]].fail_next_send = True
             elif k == 'silence':
                 w.used['F'] += 1
                 s = net.sockets[ev[1]]
@@ -590,6 +608,11 @@ def jobs_for(tier):
         ('tr2-cold:D1P1', dict(n=2, faults=0, times=0, probes=1, drops=1, closing_every=4, cold=True)),
         ('tr2-cold:N1T1', dict(n=2, faults=0, times=1, probes=0, netdowns=1, closing_every=2, cold=True)),
         ('tr2:N1T2', dict(n=2, faults=0, times=2, probes=0, netdowns=1, closing_every=3)),
+        ('tr2-smallbuf:F1T1P1', dict(n=2, faults=1, times=1, probes=1, closing_every=3, sndcap=16)),
+        # a connection older than connectionRetryTime that is kept alive by traffic (so a disconnect is followed by an
+        # immediate new attempt), every message needing several writes
+        ('tr2-smallbuf-old:F1P1', dict(n=2, faults=1, times=0, probes=1, closing_every=2, sndcap=16,
+                                       prefix=(('time', 3.0), ('probe', 0, 1), 'settle', ('probe', 1, 0), 'settle', ('time', 3.0)))),
         ('tr2:O1P1', dict(n=2, faults=0, times=0, probes=1, outsiders=1, closing_every=4)),
         ('tr3:F1', dict(n=3, faults=1, times=0, probes=0, closing_every=6)),
         ('tr1+ro2:L2P1', dict(n=1, observers=2, faults=0, times=0, probes=1, ro_leaves=2, closing_every=2)),
